@@ -57,7 +57,7 @@ fn date_event(y: i16, m: i8, d: i8, cls: &str) -> Value {
             "durrem": (dur.as_nanos() % 3_600_000_000_000i128) as i64 / 1_000_000_000,
             "tsday": ts.as_ref().map(|s| s.div_euclid(86400)).unwrap_or(99_999_999),
             "tsrem": ts.as_ref().map(|s| s.rem_euclid(86400)).unwrap_or(-1),
-            "fromday": fromday.map(jdate).unwrap_or(json!(0)),
+            "fromday": fromday.map(jdate).unwrap_or(json!([])),
         })
     });
     match facts {
@@ -119,7 +119,7 @@ fn iso_event(iy: i16, w: i8, wd: i64, cls: &str) -> Value {
     let st = status(&r);
     let date = match &r {
         Ok(Ok(iso)) => jdate(iso.date()),
-        _ => json!(0),
+        _ => json!([]),
     };
     json!({"op":"isonew","cls":cls,"iy":iy,"w":w,"wd":wd,"st":st,"date":date})
 }
@@ -142,8 +142,8 @@ fn static_event(y: i16, m: i8, d: i8, cls: &str) -> Value {
         };
         let n = id.to_epoch_day();
         let back = n.to_date();
-        let tom = id.tomorrow().map(|t| json!([t.year, t.month, t.day])).unwrap_or(json!(0));
-        let yes = id.yesterday().map(|t| json!([t.year, t.month, t.day])).unwrap_or(json!(0));
+        let tom = id.tomorrow().map(|t| json!([t.year, t.month, t.day])).unwrap_or(json!([]));
+        let yes = id.yesterday().map(|t| json!([t.year, t.month, t.day])).unwrap_or(json!([]));
         let mut nth = Vec::new();
         for k in [1i8, 2, 3, 4, 5, -1, -2, -3, -4, -5] {
             let wd = IWeekday::from_monday_one_offset(((k.unsigned_abs() + d as u8) % 7 + 1) as i8);
